@@ -77,13 +77,16 @@ func (f *fAdapterTransport) Open() error {
 		}
 	}
 
-	go f.readLoop()
+	// Every open gets its own close signal: a token left behind by an earlier
+	// read loop must never be seen by a later one.
+	f.closeSignal = make(chan struct{}, 1)
+	go f.readLoop(f.closeSignal)
 	f.isOpen = true
 	f.closeChan = make(chan error, 1)
 	return nil
 }
 
-func (f *fAdapterTransport) readLoop() {
+func (f *fAdapterTransport) readLoop(closeSignal chan struct{}) {
 	defer verifC15Yield("exit", nil)
 	framedTransport := NewTFramedTransport(f.transport)
 	for {
@@ -92,7 +95,7 @@ func (f *fAdapterTransport) readLoop() {
 			// First check if the transport was closed.
 			verifC15Yield("err", err)
 			select {
-			case <-f.closeSignal:
+			case <-closeSignal:
 				// Transport was closed.
 				return
 			default:
@@ -101,13 +104,13 @@ func (f *fAdapterTransport) readLoop() {
 			if err, ok := err.(thrift.TTransportException); ok && err.TypeId() == TRANSPORT_EXCEPTION_END_OF_FILE {
 				// EOF indicates remote peer disconnected.
 				verifC15Yield("close-eof", err)
-				f.Close()
+				f.close(closeSignal, nil)
 				return
 			}
 
 			logger().Error("frugal: error reading protocol frame, closing transport: ", err)
 			verifC15Yield("close-err", err)
-			f.close(err)
+			f.close(closeSignal, err)
 			return
 		}
 
@@ -115,7 +118,7 @@ func (f *fAdapterTransport) readLoop() {
 			// An error here indicates an unrecoverable error, teardown transport.
 			logger().Error("frugal: closing transport due to unrecoverable error processing frame: ", err)
 			verifC15Yield("close-exec", err)
-			f.close(err)
+			f.close(closeSignal, err)
 			return
 		}
 	}
@@ -143,14 +146,17 @@ func (f *fAdapterTransport) IsOpen() bool {
 
 // Close closes the transport.
 func (f *fAdapterTransport) Close() error {
-	return f.close(nil)
+	return f.close(nil, nil)
 }
 
-func (f *fAdapterTransport) close(cause error) error {
+// close closes the transport. A read loop passes the close signal it was
+// started with: if the transport has been closed (and possibly reopened) since,
+// the loop is stale and must not close the newer connection.
+func (f *fAdapterTransport) close(loopSignal chan struct{}, cause error) error {
 	f.mu.Lock()
 	defer f.mu.Unlock()
 
-	if !f.isOpen {
+	if !f.isOpen || (loopSignal != nil && loopSignal != f.closeSignal) {
 		return thrift.NewTTransportException(TRANSPORT_EXCEPTION_NOT_OPEN, "Transport not open")
 	}
 
